@@ -8,7 +8,8 @@ def B(s):
 
 
 BASE = [B('"'), B("'"), B("\\"), [10], [0], B("a"), B("g"), B("n"), B("x"), B("u"), B("U"), B("0"), B("7"), B("8"), B("é"), B("世")]
-ESCAPES = ["\\u00e9", "\\ud800", "\\udfff", "\\uD7FF", "\\ue000", "\\u00E", "\\U0001F600", "\\U00110000", "\\U0010FFFF", "\\U0000d800",
+ESCAPES = ["\\u00e9", "\\ud800", "\\udfff", "\\uD7FF", "\\ue000", "\\u00E", "\\U0001F600", "\\U00110000", "\\U0010FFFF", "\\U0000d800", "\\U80000041", "\\UFFFFFFFF", "\\U80000000", "\\Uffffff0a", "\\U7FFFFFFF", "\\UFFFF0041",
+           "\\uffff", "\\xFF", "\\U00000041",
            "\\x41", "\\xff", "\\xg1", "\\x4", "\\X41", "\\101", "\\377", "\\400", "\\18", "\\08", "\\7", "\\a", "\\b", "\\f", "\\n", "\\r",
            "\\t", "\\v", "\\\\", "\\'", '\\"', "\\`", "\\e", "\\0", "\\ ", "\\?", "\\u12g4", "\\U0000006"]
 
